@@ -170,6 +170,14 @@ class Unit:
 
     # -- helpers ----------------------------------------------------------
     def src(self, rel):
+        if rel not in self.sources and rel.startswith('gen:rtc:'):
+            # code generated by the repository's own remoc_macro for the traits of a repository file (lib/rtcgen.py)
+            import rtcgen
+            try:
+                text = rtcgen.generate(REPO, rel[len('gen:rtc:'):], os.environ.get('VERIF_BUILD', os.path.join(os.path.dirname(os.path.dirname(os.path.abspath(__file__))), 'build')))
+            except rtcgen.GenError as e:
+                raise Undecided(str(e))
+            self.sources[rel] = Source(rel, text)
         if rel not in self.sources:
             p = os.path.join(REPO, rel)
             if not os.path.exists(p):
